@@ -466,7 +466,17 @@ struct FixSpec {
   severity: &'static str,
   id: String,
   with_fix: bool,
+  /// a `constraints` section (JSON) for targets that capture single variables
+  constraints: Option<&'static str>,
 }
+
+/// constraints per target: the `rule` part alone matches more than rule + constraints do, so a front
+/// end that evaluates the bare rule reports findings the others do not
+const CONSTRAINTS: &[(usize, &[&str])] = &[
+  (0, &[r#"{"B":{"kind":"number"}}"#, r#"{"A":{"regex":"^[a-z]$"}}"#, r#"{"A":{"regex":"^[a-z]$"},"B":{"kind":"string"}}"#]),
+  (2, &[r#"{"A":{"kind":"string"}}"#, r#"{"A":{"kind":"number"}}"#, r#"{"A":{"regex":"^[0-9a-z]$"}}"#]),
+  (10, &[r#"{"F":{"regex":"^foo$"}}"#, r#"{"F":{"kind":"member_expression"}}"#]),
+];
 
 fn expansion_json(c: (usize, usize)) -> Value {
   let mut v: Value = serde_json::from_str(EXPS[c.0]).unwrap();
@@ -488,6 +498,9 @@ impl FixSpec {
     });
     if let Some(n) = &self.note {
       d["note"] = json!(n);
+    }
+    if let Some(c) = self.constraints {
+      d["constraints"] = serde_json::from_str::<Value>(c).unwrap();
     }
     if self.transform {
       // U = the text of the match's first line capitalised is too fancy: a plain replace
@@ -551,6 +564,10 @@ fn gen_fix_spec(rng: &mut Rng, id: &str, always_fix: bool) -> FixSpec {
     severity: *rng.pick(&["error", "warning", "warning", "info", "hint"]),
     id: id.to_string(),
     with_fix: always_fix || rng.chance(1, 2),
+    constraints: match CONSTRAINTS.iter().find(|c| c.0 == target) {
+      Some((_, cs)) if rng.chance(1, 2) => Some(*rng.pick(cs)),
+      _ => None,
+    },
   }
 }
 
